@@ -1436,9 +1436,13 @@ def build_programs(ctx):
     if ctx.quick:
         # quick tier: every template as written and with a raising operand at every child position (both
         # spaces); a seeded sample of the kind substitutions and of the operator x kind tables
-        base = [x for x in tpls if x[0].count("/") == 1 or "raise@" in x[0]]
+        base = [x for x in tpls if x[0].count("/") == 1]
+        rais = [x for x in tpls if "raise@" in x[0]]
         rest = [x for x in tpls if not (x[0].count("/") == 1 or "raise@" in x[0])]
         add("template", base, [OPTS0, QUIET])
+        # (Round 4: a raising operand at every child position - alternating between the two recorder modes, the parity
+        # chosen by the seed - instead of both modes for each: the quick tier's budget went to the alias family)
+        add("template", rais, [OPTS0, QUIET] if r.random() < 0.5 else [QUIET, OPTS0], alternate=True)
         add("template", r.sample(rest, len(rest) // 12), [OPTS0, QUIET], alternate=True)
         add("table", r.sample(tables, len(tables) // 8), [OPTS0, QUIET], alternate=True)
         # scope family: in the quiet mode (masked space) every form with two thirds of the bindings (rotating with the
@@ -1711,12 +1715,13 @@ def gen_skeletons(ctx, flags=(), scope_only=False):
     # each state re-runs the machine on its prefix: ~400 states/skeleton; sized for < 60 s (quick) on an idle machine
     # stratified by size, offset by the seed: the amount of work is about the same for every seed
     deep = sorted(set(deep), key=lambda x: (len(x), x))
-    n = min(len(deep), ctx.pick(20, 350))
+    n = min(len(deep), ctx.pick(14, 350))
     step = len(deep) / n
     off = 0.0          # the same family for every seed: this part is exhaustive over a fixed family, not a sample
     deep = [deep[min(len(deep) - 1, int((i + off) * step))] for i in range(n)]
     _, env = make_env(OPTS0)
     env0 = final_bindings(env)
+    deepset = set(deep) - set(srcs)
     sk = []
     items = [(src, env0) for src in ([] if scope_only else srcs + deep)]
     for form in SK_SCOPE:
@@ -1733,7 +1738,7 @@ def gen_skeletons(ctx, flags=(), scope_only=False):
         plain = sum(len(g.iter.elts) for n in ast.walk(tree) if isinstance(n, (ast.ListComp, ast.SetComp, ast.DictComp))
                     for g in n.generators if isinstance(g.iter, (ast.List, ast.Tuple)))
         sk.append({"id": i, "src": src, "body": [conv(s) for s in tree.body], "env0": env0, "plainiter": plain,
-                   "scoped": scoped_names(tree), "fl": list(flags), "tag": tags.get(i, ""),
+                   "scoped": scoped_names(tree), "fl": list(flags), "tag": tags.get(i, ""), "deep": src in deepset,
                    "expect": heap_expect(src) if i in tags else [],
                    "leaves": [{"n": n, "rank": r + 1, "loop": lp} for r, (n, lp) in enumerate(order)]})
     return sk
@@ -1751,7 +1756,8 @@ def model_check(ctx):
     # the witness run: the same skeletons plus the scope skeletons on the LEAKING variant of the machine (deviation flag
     # comp-leak-on-raise), on which the theorem ScopeRestored must fail
     wpath = os.path.join(ctx.scratch, "c01_skels_w.json")
-    json.dump(sk + gen_skeletons(ctx, flags=["comp-leak-on-raise"], scope_only=True), open(wpath, "w"))
+    # (the witness conditions are all reachable on the top-level / scope / heap skeletons: the depth-2 sample is left out)
+    json.dump([s for s in sk if not s["deep"]] + gen_skeletons(ctx, flags=["comp-leak-on-raise"], scope_only=True), open(wpath, "w"))
     jopts = "-Xss256m -XX:ParallelGCThreads=2"
     wcfg = os.path.join(ctx.scratch, "PyExprMC_witness.cfg")
     open(wcfg, "w").write("SPECIFICATION Spec\nINVARIANT Witness_All\nCHECK_DEADLOCK FALSE\n")
